@@ -134,7 +134,10 @@ OnInPublish(m, ev) ==
       rec == [n |-> n, id |-> ev.id, q |-> ev.q, topic |-> topic, size |-> ev.n,
               st |-> "arrived", failed |-> FALSE, h |-> 0, acked |-> FALSE, recd |-> FALSE, rel |-> FALSE,
               comp |-> FALSE, code |-> 0, refused |-> FALSE, relProduced |-> FALSE,
-              noalias |-> (unresolved \/ overMax), aliased |-> (alias > 0)]
+              noalias |-> (unresolved \/ overMax), aliased |-> (alias > 0),
+              \* what the handler has to see: flags (dup * 2 + retain) from the packet, and - from the
+              \* in_props event that follows - payload fill byte and MQTT 5 properties
+              flags |-> ev.r, fill |-> -1, props |-> "?", mei |-> 0, pfi |-> 0]
       unacked == Cardinality({k \in 1..Len(m.pubs) : m.pubs[k].q > 0 /\ ~m.pubs[k].refused
                       /\ ~((m.pubs[k].q = 1 /\ m.pubs[k].acked) \/ (m.pubs[k].q = 2 /\ m.pubs[k].comp))})
       m2 == [m1 EXCEPT !.pubs = Append(@, rec), !.narr = n,
@@ -223,6 +226,7 @@ OnHStart(m, ev) ==
          ELSE IF p.topic # ev.x
            THEN Fail(m1, IF p.aliased THEN "C17:handler-saw-wrong-topic" ELSE "C03:handler-saw-wrong-topic")
          ELSE IF p.size # ev.n THEN Fail(m1, "C03:handler-saw-wrong-payload-size")
+         ELSE IF p.flags # ev.r % 16 THEN Fail(m1, "C03:handler-saw-wrong-dup-or-retain-flag")
          ELSE IF m.router /\ ev.r >= 16
                  /\ (ev.r \div 16) - 1 # (CASE p.topic = "a" -> 1 [] p.topic = "b" -> 2 [] OTHER -> 0)
                  /\ ~(m.role = "client" /\ p.topic \notin {"a", "b"})
@@ -466,11 +470,25 @@ Step(m, ev) ==
     [] ev.e = "pollall_done" ->
          IF m.est /\ m.connDone /\ ev.s # 0 THEN Fail(m, "C07:send-future-left-pending-after-teardown") ELSE m
     [] ev.e = "h_read" ->
-         \* a payload reader finished: complete only if it got every declared byte
+         \* a payload reader finished: complete only if it got every declared byte, and the bytes
+         \* are the ones that were sent
          LET i == IdxOf(m.pubs, LAMBDA p : p.h = ev.s /\ p.h # 0) IN
          IF i > 0 /\ ev.r = 0 /\ ev.n >= 0 /\ ev.n < m.pubs[i].size
            THEN Fail(m, "C07:payload-reader-saw-truncated-payload-as-complete")
+         ELSE IF i > 0 /\ ev.r = 0 /\ ev.n > 0 /\ ev.k \in {"all", "chunks"} /\ m.pubs[i].fill >= 0 /\ ev.q # m.pubs[i].fill
+           THEN Fail(m, "C03:handler-read-other-payload-bytes")
            ELSE m
+    [] ev.e = "in_props" ->
+         \* belongs to the PUBLISH that was just recorded (if it was recorded at all)
+         IF m.pubs # << >> /\ m.pubs[Len(m.pubs)].n = m.narr /\ m.pubs[Len(m.pubs)].props = "?"
+           THEN [m EXCEPT !.pubs[Len(m.pubs)].fill = ev.id, !.pubs[Len(m.pubs)].props = ev.x,
+                          !.pubs[Len(m.pubs)].mei = ev.q, !.pubs[Len(m.pubs)].pfi = ev.r]
+           ELSE m
+    [] ev.e = "h_props" ->
+         LET i == IdxOf(m.pubs, LAMBDA p : p.h = ev.s /\ p.h # 0) IN
+         IF i > 0 /\ m.pubs[i].props # "?" /\ m.ver = 5
+            /\ (ev.x # m.pubs[i].props \/ ev.q # m.pubs[i].mei \/ ev.r # m.pubs[i].pfi)
+           THEN Fail(m, "C03:handler-saw-wrong-properties") ELSE m
     [] ev.e = "final" -> OnFinal(m, ev)
     [] ev.e = "panic" -> Fail(m, "C16:panic")
     [] ev.e = "conn_done" -> End([m EXCEPT !.connDone = TRUE], "local")
